@@ -214,7 +214,7 @@ static uint8_t blind_priv[32];
 static uint8_t last_blinding[32];
 static int last_blinding_known;
 
-static int in_dh, dh_entropy_calls, dh_entropy_rc;
+static int in_dh, dh_entropy_calls, dh_entropy_rc, dh_inplace;
 static size_t dh_draw_len[8];
 static const uint8_t * dh_cur_priv;
 static void set_patterns(const uint8_t priv[32], const uint8_t * blinding);
@@ -660,7 +660,11 @@ dh_once(const uint8_t priv[32], const uint8_t * peer, uint8_t out[256], const st
 	ossl_failed = 0;
 	ossl_count_on = 1;
 	in_dh = 1;
-	memset(out, 0xC3, 256);		/* a result that is not written at all must not look like a value */
+	if (dh_inplace && peer != NULL) {
+		memcpy(out, peer, 256);		/* the caller computes in place: pub and key are the same buffer */
+		peer = out;
+	} else
+		memset(out, 0xC3, 256);		/* a result that is not written at all must not look like a value */
 	LIB_ENTER();
 	rc = peer ? crypto_dh_compute(peer, priv, out) : crypto_dh_generate_pub(out, priv);
 	LIB_LEAVE();
@@ -668,7 +672,6 @@ dh_once(const uint8_t priv[32], const uint8_t * peer, uint8_t out[256], const st
 	ossl_count_on = 0;
 	npat = 0;
 	dh_cur_priv = NULL;
-	ERR_clear_error();
 	if (tpos)
 		*tpos = devtape_pos;
 	devtape = NULL;
@@ -737,6 +740,12 @@ do_dh(const struct pline * l)
 	if (ek != 0)
 		R->cnt[N_DH_EDGE]++;
 	memcpy(blind_priv, privA, 32);
+	/* 0. sometimes the very first libcrypto operation of the process is one that fails */
+	if (l->nargs > 6 && l->a[6] >= 0 && R->cnt[N_DH] == 0) {
+		ossl_fail_at = (int)(l->a[6] % 70);
+		(void)dh_once(privA, (l->a[6] & 64) ? NULL : peer, k3, l, &tpos, 1);
+		ossl_fail_at = -1;
+	}
 	/* 1. public values; agreement between two parties */
 	blind_override = 0;
 	rc = dh_once(privA, NULL, pubA, l, &tpos, 0);
@@ -791,7 +800,9 @@ do_dh(const struct pline * l)
 	}
 	rc = dh_once(privB, NULL, k3, l, &tpos, 0);
 	report_triple("P", privB, (const uint8_t *)"\x02", 1, k3, rc);
+	dh_inplace = 1;
 	rc = dh_once(privB, peer, k3, l, &tpos, 0);
+	dh_inplace = 0;
 	report_triple("K", privB, peer, 256, k3, rc);
 }
 
@@ -887,9 +898,9 @@ engine_gen(struct plan * P, uint64_t seed, struct prng * g)
 			gen_devtape(g, l, 9, 0);
 		}
 		for (i = 0; i < n; i++) {
-			l = plan_add(P, "step", "dh", 6, (int64_t)prng_n(g, 4), (int64_t)(prng_chance(g, 50) ? 0 : prng_n(g, 10)),
+			l = plan_add(P, "step", "dh", 7, (int64_t)prng_n(g, 4), (int64_t)(prng_chance(g, 50) ? 0 : prng_n(g, 10)),
 			    (int64_t)prng_n(g, 1000000), (int64_t)prng_n(g, 1000000), (prng_chance(g, 70) ? (int64_t)prng_n(g, 70) : (int64_t)-1),
-			    (int64_t)prng_n(g, 4));
+			    (int64_t)prng_n(g, 4), (prng_chance(g, 35) ? (int64_t)prng_n(g, 128) : (int64_t)-1));
 			gen_devtape(g, l, 12, pf / 2);
 		}
 		for (i = 0; i < 3; i++)
